@@ -203,9 +203,9 @@ example : serverUp ⟨true⟩ [.connect, .drop, .connect, .drop] = true := by de
 left its socket file behind. -/
 theorem crashed_target_not_found (R : ReattachParams) (hR : R.Good) (socketFileLeft : Bool) :
     reattachNotFound R socketFileLeft = true := by
-  simp [reattachNotFound, show R.probeConnects = true from hR]
+  simp [reattachNotFound, show R.probeConnects = true from hR.1]
 
 /-- a probe that only looks for the socket file reattaches to a crashed plugin's left-over file -/
-theorem stat_probe_witness : reattachNotFound ⟨false⟩ true = false := by decide
+theorem stat_probe_witness : reattachNotFound ⟨false, true, 1000⟩ true = false := by decide
 
 end GoPlugin.Props.C15
